@@ -122,6 +122,17 @@ pub fn build_mmtk<const V: usize>(case: &Case) -> &'static MMTK<ShadowVM<V>> {
         }
         assert!(builder.set_option(k, v), "bad option {}={}", k, v);
     }
+    if std::env::var("VH_ASAN_LAYOUT").is_ok() {
+        // keep the heap out of AddressSanitizer's shadow memory: spaces 9..15 of the 64-bit layout
+        use mmtk::util::heap::vm_layout::VMLayout;
+        builder.set_vm_layout(VMLayout {
+            log_address_space: 47,
+            heap_start: unsafe { Address::from_usize(9usize << 41) },
+            heap_end: unsafe { Address::from_usize(16usize << 41) },
+            log_space_extent: 41,
+            force_use_contiguous_spaces: true,
+        });
+    }
     let mmtk: Box<MMTK<ShadowVM<V>>> = mm::mmtk_init::<ShadowVM<V>>(&builder);
     let mmtk: &'static MMTK<ShadowVM<V>> = Box::leak(mmtk);
     let gl = g();
@@ -287,6 +298,12 @@ impl<const V: usize> Exec<V> {
         if self.case.plan == "Compressor" && matches!(sem, AllocationSemantics::Immortal | AllocationSemantics::NonMoving | AllocationSemantics::Code | AllocationSemantics::ReadOnly) && !self.allow_known("compressor-stale-ref-from-immortal-or-nonmoving") {
             sem = AllocationSemantics::Default;
             cnt!(self, "steered_compressor_immortal");
+        }
+        // Known finding C01 markcompact-nonmoving-double-release: MarkCompact releases and prepares the
+        // common spaces mid-GC, which sweeps the Immix non-moving space twice.  Steer away.
+        if self.case.plan == "MarkCompact" && matches!(sem, AllocationSemantics::NonMoving) && !self.allow_known("markcompact-nonmoving-double-release") {
+            sem = AllocationSemantics::Default;
+            cnt!(self, "steered_markcompact_nonmoving");
         }
         // align in [MIN, MAX], power of two
         let max_log = vd.max_align.trailing_zeros() as u8;
